@@ -32,7 +32,10 @@ def gen_cases(rng, tier, count=None):
                 out.append({"algo": "POO_" + kind, "stub": True, "part": "Bin", "box": [[-1.0, 2.0]], "box_kind": "shifted",
                             "n": n, "T": n, "params": {"nu": 2.0, "rhomax": rm}, "np_seed": 0,
                             "reward": {"family": "sin3", "seed": 0}, "_cost": 5e-5 * n,
-                            "queries": [n // 3, n // 2], "midqueries": [n // 4, n // 2 + 1, n - 2]})
+                            # (the recommendation after EVERY round for the shorter horizons: a leader cached at the
+                            # wrong moment is stale for a single between-round instant)
+                            "queries": list(range(n)) if n <= 1000 else [n // 3, n // 2],
+                            "midqueries": [n // 4, n // 2 + 1, n - 2]})
     nreal = 200 if tier == "quick" else 3000
     if count:
         out = out[:count]
@@ -42,6 +45,8 @@ def gen_cases(rng, tier, count=None):
         c = TS.wrapper_case(rng, tier, po[i % len(po)])
         c["T"] = c["n"]
         c["queries"] = sorted(int(x) for x in rng.integers(1, c["T"], size=int(rng.integers(0, 3))))
+        if i % 2 == 0:
+            c["queries"] = list(range(c["T"]))
         out.append(c)  # (mid-round queries are added by wrapper_case)
     return out
 
